@@ -15,6 +15,7 @@ KeyB(k) == CASE k = "S" -> <<83>> [] k = "X-Renamed" -> <<88, 45, 82, 101, 110, 
              [] k = "Checksums-Sha256" -> <<67, 104, 101, 99, 107, 115, 117, 109, 115, 45, 83, 104, 97, 50, 53, 54>>
              [] k = "Req-V" -> <<82, 101, 113, 45, 86>> [] k = "Name" -> <<78, 97, 109, 101>> [] k = "Count" -> <<67, 111, 117, 110, 116>>
              [] k = "Tags" -> <<84, 97, 103, 115>> [] k = "-" -> <<45>> [] k = "" -> <<>> [] k = "Z" -> <<90>>
+             [] k = "C-S" -> <<67, 45, 83>> [] k = "ML" -> <<77, 76>> [] k = "CN" -> <<67, 78>>
 
 EmptyRaw == [order |-> <<>>, values |-> <<>>]
 
